@@ -308,7 +308,11 @@ func (st *State) arrayAt(p Ptr) *ArrayV {
 func (st *State) load(p Ptr) Value {
 	if p.SymIdx != nil {
 		arr := st.arrayAt(Ptr{Obj: p.Obj, Path: p.Path})
-		return st.symRead(arr, p.SymIdx)
+		if v, ok := st.trySymRead(arr, p.SymIdx); ok {
+			return v
+		}
+		// elements cannot be merged (pointers, interfaces ...): fork over the index values
+		return st.load(st.concretizePtr(p))
 	}
 	get, _ := st.cellRef(p)
 	st.raceAccess(p, false)
@@ -348,6 +352,19 @@ func (st *State) idxBound(idx *Term, n int) int {
 		}
 	}
 	return n
+}
+
+func (st *State) trySymRead(arr *ArrayV, idx *Term) (v Value, ok bool) {
+	defer func() {
+		if r := recover(); r != nil {
+			if _, is := r.(needFork); is {
+				ok = false
+				return
+			}
+			panic(r)
+		}
+	}()
+	return st.symRead(arr, idx), true
 }
 
 // symRead builds an ite-chain over the elements; the index is already bounds-checked.
